@@ -305,6 +305,9 @@ def _chunk_job(args):
 
 
 def replay_case(case):
+    if "api" in case:
+        from . import apiuse
+        return apiuse.replay_case(case, ("C03",))
     c = case["case"]
     return run_case((c[0], c[1], tuple(c[2]), c[3]), case["proto"], case["variant"])
 
@@ -335,6 +338,8 @@ def check(tier="quick", seed=0, workers=None, only=None):
     from . import backends
     bst, binfo = backends.run_for(tier, seed, workers, None, purpose="uploads") if not only else (engine.Stats(bound=2), {})
     viols += common.collect(bst, ("C03",))
+    from . import apiuse
+    viols += apiuse.run_all(("C03",))[1] if not only else []
     total += bst.evaluations
     samples = [{"method": c[0], "target": repr(TARGETS[c[1]]), "headers": [HEADER_ALPHABET[i][0] for i in c[2]], "body": c[3]}
                for c in allc[:: max(1, len(allc) // 5)][:5]]
